@@ -23,7 +23,7 @@ fn same(a: &[u8], b: &[u8]) -> bool {
 // ---- accepted octets re-encode to themselves (canonical + strict framing) ---------------------
 pub fn canon_pk<const LEN: usize>() {
     let buf: [u8; LEN] = kani::any();
-    tp!("kind", "canon"); tp!("entry", "pk"); tp!("q", QV); tp!("bytes", &buf[..]);
+    tp!("kind", "canon"); tp!("entry", "pk"); tp!("bytes", &buf[..]);
     if let Ok(x) = BBSplusPublicKey::from_bytes(&buf[..]) {
         kani::cover!(LEN == 96, "canonical length accepted");
         assert!(same(&x.to_bytes(), &buf[..]), "C09: accepted public-key octets do not re-encode to themselves");
@@ -32,7 +32,7 @@ pub fn canon_pk<const LEN: usize>() {
 }
 pub fn canon_sk<const LEN: usize>() {
     let buf: [u8; LEN] = kani::any();
-    tp!("kind", "canon"); tp!("entry", "sk"); tp!("q", QV); tp!("bytes", &buf[..]);
+    tp!("kind", "canon"); tp!("entry", "sk"); tp!("bytes", &buf[..]);
     if let Ok(x) = BBSplusSecretKey::from_bytes(&buf[..]) {
         kani::cover!(LEN == 32, "canonical length accepted");
         assert!(same(&x.to_bytes(), &buf[..]), "C09: accepted secret-key octets do not re-encode to themselves");
@@ -40,7 +40,7 @@ pub fn canon_sk<const LEN: usize>() {
 }
 pub fn canon_sig() {
     let buf: [u8; 80] = kani::any();
-    tp!("kind", "canon"); tp!("entry", "sig"); tp!("q", QV); tp!("bytes", &buf[..]);
+    tp!("kind", "canon"); tp!("entry", "sig"); tp!("bytes", &buf[..]);
     if let Ok(x) = BBSplusSignature::from_bytes(&buf) {
         kani::cover!(true, "some signature accepted");
         assert!(same(&x.to_bytes(), &buf[..]), "C09: accepted signature octets do not re-encode to themselves");
@@ -50,7 +50,7 @@ pub fn canon_sig() {
 }
 pub fn canon_blind_sig<CS: BbsCiphersuite>() {
     let buf: [u8; 80] = kani::any();
-    tp!("kind", "canon"); tp!("entry", "sig"); tp!("q", QV); tp!("bytes", &buf[..]);
+    tp!("kind", "canon"); tp!("entry", "sig"); tp!("bytes", &buf[..]);
     if let Ok(x) = BlindSignature::<BBSplus<CS>>::from_bytes(&buf) {
         kani::cover!(true, "some signature accepted");
         assert!(same(&x.to_bytes(), &buf[..]), "C09: accepted blind-signature octets do not re-encode to themselves");
@@ -60,7 +60,7 @@ pub fn canon_blind_sig<CS: BbsCiphersuite>() {
 }
 pub fn canon_proof<const LEN: usize>() {
     let buf: [u8; LEN] = kani::any();
-    tp!("kind", "canon"); tp!("entry", "proof"); tp!("q", QV); tp!("bytes", &buf[..]);
+    tp!("kind", "canon"); tp!("entry", "proof"); tp!("bytes", &buf[..]);
     if let Ok(x) = BBSplusPoKSignature::from_bytes(&buf[..]) {
         kani::cover!(true, "some proof accepted");
         let re = x.to_bytes();
@@ -71,7 +71,7 @@ pub fn canon_proof<const LEN: usize>() {
 }
 pub fn canon_zkpok<const LEN: usize>() {
     let buf: [u8; LEN] = kani::any();
-    tp!("kind", "canon"); tp!("entry", "zkpok"); tp!("q", QV); tp!("bytes", &buf[..]);
+    tp!("kind", "canon"); tp!("entry", "zkpok"); tp!("bytes", &buf[..]);
     if let Ok(x) = BBSplusZKPoK::from_bytes(&buf[..]) {
         kani::cover!(true, "some commitment proof accepted");
         assert!(same(&x.to_bytes(), &buf[..]), "C09: accepted ZKPoK octets do not re-encode to themselves");
@@ -79,7 +79,7 @@ pub fn canon_zkpok<const LEN: usize>() {
 }
 pub fn canon_commitment<const LEN: usize>() {
     let buf: [u8; LEN] = kani::any();
-    tp!("kind", "canon"); tp!("entry", "commitment"); tp!("q", QV); tp!("bytes", &buf[..]);
+    tp!("kind", "canon"); tp!("entry", "commitment"); tp!("bytes", &buf[..]);
     if let Ok(x) = BBSplusCommitment::from_bytes(&buf[..]) {
         kani::cover!(true, "some commitment accepted");
         assert!(same(&x.to_bytes(), &buf[..]), "C09: accepted commitment octets do not re-encode to themselves");
@@ -87,7 +87,7 @@ pub fn canon_commitment<const LEN: usize>() {
 }
 pub fn canon_blindfactor() {
     let buf: [u8; 32] = kani::any();
-    tp!("kind", "canon"); tp!("entry", "blindfactor"); tp!("q", QV); tp!("bytes", &buf[..]);
+    tp!("kind", "canon"); tp!("entry", "blindfactor"); tp!("bytes", &buf[..]);
     if let Ok(x) = BlindFactor::from_bytes(&buf) {
         kani::cover!(true, "some blind factor accepted");
         assert!(same(&x.to_bytes(), &buf[..]), "C09: accepted blind-factor octets do not re-encode to themselves");
@@ -96,7 +96,7 @@ pub fn canon_blindfactor() {
 pub fn canon_coordinates() {
     let x: [u8; 96] = kani::any();
     let y: [u8; 96] = kani::any();
-    tp!("kind", "canon"); tp!("entry", "coords"); tp!("q", QV); tp!("bytes", &x[..]); tp!("bytes2", &y[..]);
+    tp!("kind", "canon"); tp!("entry", "coords"); tp!("bytes", &x[..]); tp!("bytes2", &y[..]);
     if let Ok(p) = BBSplusPublicKey::from_coordinates(&x, &y) {
         kani::cover!(true, "some coordinate pair accepted");
         let (x2, y2) = p.to_coordinates();
@@ -107,7 +107,7 @@ pub fn canon_coordinates() {
 
 // ---- decode(encode(x)) == x for every object value ---------------------------------------------
 pub fn rt_pk() {
-    let pk = BBSplusPublicKey(G2Projective(any_nonzero_scalar().0));
+    let pk = BBSplusPublicKey(G2Projective(any_elem()));
     assert!(BBSplusPublicKey::from_bytes(&pk.to_bytes()).unwrap() == pk);
     let (x, y) = pk.to_coordinates();
     assert!(BBSplusPublicKey::from_coordinates(&x, &y).unwrap() == pk);
@@ -117,7 +117,7 @@ pub fn rt_sk() {
     assert!(BBSplusSecretKey::from_bytes(&sk.to_bytes()).unwrap() == sk);
 }
 pub fn rt_sig() {
-    let s = BBSplusSignature { A: G1Projective(any_nonzero_scalar().0), e: any_nonzero_scalar() };
+    let s = BBSplusSignature { A: G1Projective(any_elem()), e: any_nonzero_scalar() };
     assert!(BBSplusSignature::from_bytes(&s.to_bytes()).unwrap() == s);
 }
 pub fn rt_blindfactor() {
@@ -131,14 +131,12 @@ pub fn rt_proof<const U: usize, const LEN: usize>() {
     let mut b = [0u8; LEN];
     let mut k = 0;
     while k < 3 {
-        let v = any_nonzero_scalar().0;
-        b[48 * k] = 0x80;
-        b[48 * k + 47] = v;
+        put_g1(&mut b, 48 * k);
         k += 1;
     }
     let mut j = 0;
     while j < 4 + U {
-        b[144 + 32 * j + 31] = any_scalar().0;
+        put_scalar(&mut b, 144 + 32 * j);
         j += 1;
     }
     let p = BBSplusPoKSignature::from_bytes(&b[..]).expect("canonical proof octets decode");
@@ -150,11 +148,10 @@ pub fn rt_proof<const U: usize, const LEN: usize>() {
 }
 pub fn rt_commitment<const M: usize, const LEN: usize>() {
     let mut b = [0u8; LEN];
-    b[0] = 0x80;
-    b[47] = any_nonzero_scalar().0;
+    put_g1(&mut b, 0);
     let mut j = 0;
     while j < 2 + M {
-        b[48 + 32 * j + 31] = any_scalar().0;
+        put_scalar(&mut b, 48 + 32 * j);
         j += 1;
     }
     let c = BBSplusCommitment::from_bytes(&b[..]).expect("canonical commitment octets decode");
